@@ -58,7 +58,9 @@ structure LexCfg where
   dollarKeepsError : Bool
   /-- `STEPattribute::asStr` renders reals with `WriteReal` (otherwise `ostream << double`, precision 15 = `%.15g`) -/
   asStrUsesWriteReal : Bool
-  /-- `char buf[N]` in `ReadReal` -/
+  /-- `CheckRemainingInput` skips Part 21 comments (and the blanks around them) between a value and its delimiter -/
+  criSkipsComments : Bool
+  /-- `char buf[N]` in `ReadReal`; 0 = a growing `std::string`, no overflow -/
   realBuf : Nat
   /-- `REAL_NUM_PRECISION` -/
   realPrecision : Nat
@@ -78,11 +80,39 @@ def skipTo (ds : List Byte) : Byte → List Byte → List Byte → Byte × List 
   | c, l, [] => (c, l, [], true)
   | _, l, x :: r => if isDelim ds x then (x, x :: l, r, false) else skipTo ds x (x :: l) r
 
-def checkRemainingInput (delims : Option (List Byte)) (s : IStream) (err : Sev) : IStream × Sev :=
+/-- body of a comment after `/*` (`prev` = previous character, 0 at the start): consumes through the closing `*/`;
+    `none` = unterminated, everything was consumed -/
+def commentBody : Byte → List Byte → List Byte → Option (List Byte × List Byte)
+  | _, _, [] => none
+  | prev, l, c :: r => if prev == 42 && c == 47 then some (c :: l, r) else commentBody c (c :: l) r
+
+/-- `SkipTokenSeparators` (Str.cc) on a flag-free stream, list level: blanks, then as long as `/*` follows a comment and
+    the blanks after it.  Returns (consumed side, rest, eofbit, failbit).  A `/` that does not open a comment is put back.
+    The first argument is fuel (the length of the input + 1 suffices). -/
+def skipSeps : Nat → List Byte → List Byte → List Byte × List Byte × Bool × Bool
+  | 0, l, r => (l, r, false, false)
+  | n + 1, l, r =>
+    let lr := dropSpaces l r
+    match lr.2 with
+    | [] => (lr.1, [], true, false)
+    | 47 :: 42 :: r3 =>
+      match commentBody 0 (42 :: 47 :: lr.1) r3 with
+      | none => (r3.reverse ++ (42 :: 47 :: lr.1), [], true, true)
+      | some lr' => skipSeps n lr'.1 lr'.2
+    | _ => (lr.1, lr.2, false, false)
+
+/-- what `CheckRemainingInput` skips after `in.clear()`: `in >> ws`, or blanks and comments -/
+def sepSkip (cfg : LexCfg) (s : IStream) : IStream :=
+  if cfg.criSkipsComments then
+    let q := skipSeps (s.right.length + 1) s.left s.right
+    { s with left := q.1, right := q.2.1, eof := q.2.2.1, fail := q.2.2.2 }
+  else s.ws
+
+def checkRemainingInput (cfg : LexCfg) (delims : Option (List Byte)) (s : IStream) (err : Sev) : IStream × Sev :=
   if s.eof then (s, err)
   else if s.bad then (s, err.greater .inputError)
   else
-    let s1 := s.clear.ws
+    let s1 := sepSkip cfg s.clear
     if s1.eof then (s1, err)
     else
       match delims with
@@ -105,7 +135,7 @@ def readInteger (cfg : LexCfg) (delims : Option (List Byte)) (s : IStream) (err 
   let (o, s2) := s1.extractLong
   let val : Option Int := if !s2.failed then o else none
   let err1 := err.warnIf (s2.failed && cfg.intReportsFail && !blank)
-  let (s3, err2) := checkRemainingInput delims s2 err1
+  let (s3, err2) := checkRemainingInput cfg delims s2 err1
   (val, s3, err2)
 
 /-! ## REAL / NUMBER -/
@@ -166,11 +196,11 @@ def readReal {F} (ops : FloatOps F) (cfg : LexCfg) (delims : Option (List Byte))
   if !s1.good then
     -- every peek/get fails (or sets failbit): nothing collected, `in2 >> d` fails on the empty text
     let s2 : IStream := { s1 with fail := true }
-    let (s3, err2) := checkRemainingInput delims s2 err
+    let (s3, err2) := checkRemainingInput cfg delims s2 err
     .ok (none, s3, err2)
   else
     let (buf, rest, e) := realCollect s1.right
-    if buf.length ≥ cfg.realBuf then .overflow
+    if cfg.realBuf != 0 && buf.length ≥ cfg.realBuf then .overflow
     else
       -- every character taken from the stream went into `buf`; the last `peek` sets `eofbit` at the end
       let s2 : IStream := { s1 with left := buf.reverse ++ s1.left, right := rest, eof := rest.isEmpty }
@@ -178,11 +208,11 @@ def readReal {F} (ops : FloatOps F) (cfg : LexCfg) (delims : Option (List Byte))
       let text := (IStream.scanFloat [] buf).1
       match ops.conv text with
       | .ok v =>
-        let (s3, err2) := checkRemainingInput delims s2 (err.greater e)
+        let (s3, err2) := checkRemainingInput cfg delims s2 (err.greater e)
         .ok (some v, s3, err2)
       | _ =>
         let err1 := err.warnIf (cfg.realReportsFail && !buf.isEmpty)
-        let (s3, err2) := checkRemainingInput delims s2 err1
+        let (s3, err2) := checkRemainingInput cfg delims s2 err1
         .ok (none, s3, err2)
 
 /-- `ReadNumber` -/
@@ -199,7 +229,7 @@ def readNumber {F} (ops : FloatOps F) (cfg : LexCfg) (delims : Option (List Byte
       | .ok v => (some v, s2)
       | _ => (none, s2.setFail true)
   let err1 := err.warnIf (s3.failed && cfg.numberReportsFail && !blank)
-  let (s4, err2) := checkRemainingInput delims s3 err1
+  let (s4, err2) := checkRemainingInput cfg delims s3 err1
   (val, s4, err2)
 
 /-- `WriteReal`: `%.15G`, then a `.` is inserted before the exponent letter or at the end when none was printed -/
@@ -385,14 +415,14 @@ inductive RefLookup where
 deriving Repr, DecidableEq
 
 /-- `ReadEntityRef` after the `#` / `@` has been read: the id, the look-up, the type test -/
-def refTail (lookup : Int → RefLookup) (delims : Option (List Byte)) (s2 : IStream) (err0 : Sev) :
+def refTail (cfg : LexCfg) (lookup : Int → RefLookup) (delims : Option (List Byte)) (s2 : IStream) (err0 : Sev) :
     Option Int × IStream × Sev :=
   let (oi, s3) := s2.extractInt32
   if s3.failed then
-    let (s4, e) := checkRemainingInput delims s3 (err0.greater .warning)
+    let (s4, e) := checkRemainingInput cfg delims s3 (err0.greater .warning)
     (none, s4, e)
   else
-    let (s4, e) := checkRemainingInput delims s3 err0
+    let (s4, e) := checkRemainingInput cfg delims s3 err0
     let id := oi.getD (-1)
     match lookup id with
     | .found => (some id, s4, e)
@@ -400,15 +430,15 @@ def refTail (lookup : Int → RefLookup) (delims : Option (List Byte)) (s2 : ISt
     | .missing => (none, s4, e.greater .warning)
 
 /-- `ReadEntityRef` followed by the `EntityValidLevel` test in `STEPattribute::STEPread`; value = file id -/
-def readEntityRef (lookup : Int → RefLookup) (delims : Option (List Byte)) (s : IStream) (err : Sev) :
+def readEntityRef (cfg : LexCfg) (lookup : Int → RefLookup) (delims : Option (List Byte)) (s : IStream) (err : Sev) :
     Option Int × IStream × Sev :=
   let s1 := s.ws
   let (oc, s2) := s1.getChar
   let c := oc.getD 0     -- uninitialised `char c` when nothing could be read; any value but '#'/'@' behaves alike
   if (c == 35 || c == 64) && oc.isSome then
-    refTail lookup delims s2 (if c == 64 then err.greater .warning else err)
+    refTail cfg lookup delims s2 (if c == 64 then err.greater .warning else err)
   else
-    let (s3, e) := checkRemainingInput delims (s2.putback c) err
+    let (s3, e) := checkRemainingInput cfg delims (s2.putback c) err
     (none, s3, e)
 
 /-! ## STEPattribute::STEPread / STEPwrite -/
@@ -464,7 +494,7 @@ def attrRead {F} (ops : FloatOps F) (cfg : LexCfg) (lookup : Int → RefLookup) 
   let (c, s2) := s1.peekC
   if c == 36 || c == 44 || c == 41 then
     let (s3, e) : IStream × Sev :=
-      if c == 36 then checkRemainingInput (some attrDelims) s2.ignore1 .null else (s2, .null)
+      if c == 36 then checkRemainingInput cfg (some attrDelims) s2.ignore1 .null else (s2, .null)
     -- `_error.severity( … )` *sets* the severity, discarding what CheckRemainingInput found
     .ok ⟨if nullable then (if cfg.dollarKeepsError then e else .null) else .incomplete, .unset, s3⟩
   else
@@ -482,18 +512,18 @@ def attrRead {F} (ops : FloatOps F) (cfg : LexCfg) (lookup : Int → RefLookup) 
       .ok ⟨e, realValue ops v, s3⟩
     | .string =>
       let (t, s3, e) := stringRead s2 .null
-      let (s4, e2) := checkRemainingInput d s3 e
+      let (s4, e2) := checkRemainingInput cfg d s3 e
       .ok ⟨e2, if t.isEmpty then .unset else .str t, s4⟩
     | .binary =>
       let (t, s3, e) := readBinary cfg true s2 .null
-      let (s4, e2) := checkRemainingInput d s3 e
+      let (s4, e2) := checkRemainingInput cfg d s3 e
       .ok ⟨e2, if t.isEmpty then .unset else .bin t, s4⟩
     | .ref =>
-      let (v, s3, e) := readEntityRef lookup d s2 .null
+      let (v, s3, e) := readEntityRef cfg lookup d s2 .null
       .ok ⟨e, match v with | some id => .ref id | none => .unset, s3⟩
     | _ =>
       let (v, s3, e) := enumRead cfg k.enumKind nullable s2 .null
-      let (s4, e2) := checkRemainingInput d s3 e
+      let (s4, e2) := checkRemainingInput cfg d s3 e
       .ok ⟨e2, enumValue k.enumKind v, s4⟩
 
 /-- decimal text of an integer (`out << long`) -/
